@@ -653,4 +653,269 @@ theorem for_sim (H : Hyp T tpep len M fuel) : ∀ (cnt f j : Nat) (k : EvenSt OS
     exact this
 end For
 
+
+/-! ### the code before the main loop -/
+
+theorem bitlen_half (t : Nat) (h : 0 < t) : bitlen t = bitlen (t / 2) + 1 := by
+  unfold bitlen
+  rw [Nat.log2_def t]
+  by_cases h2 : 2 ≤ t
+  · have : t / 2 ≠ 0 := by omega
+    have h0 : t ≠ 0 := by omega
+    simp [h2, this, h0]
+  · have : t = 1 := by omega
+    subst this; simp
+
+section Loop0
+variable (T : List (List Nat)) (tpep len : Nat) (oracle : Nat → Bool) (fuel : Nat) (pl : Int)
+
+/-- `for (tmp = e_half, log2_of_e = 0; tmp > 0; tmp >>= 1, ++log2_of_e)` computes `bitlen` -/
+theorem loop0 : ∀ (f t a : Nat) (k : EvenSt OSt), k.fault = none → k.obs.bad = false → k.tmp = (t : Int) →
+    k.log2_of_e = (a : Int) → a + bitlen t < 256 → t ≤ f →
+    whileF (EvenSt.live obs)
+      (fun s => match ec_eval_even_strategy_loop0_cond obs T tpep oracle fuel len pl s with | .ok b => b | .error _ => true)
+      (fun s => match ec_eval_even_strategy_loop0_cond obs T tpep oracle fuel len pl s with
+        | .ok _ => ec_eval_even_strategy_loop0_body obs T tpep oracle fuel len pl s | .error f => s.fail f)
+      (fun s => s.fail .fuel) f k = { k with tmp := 0, log2_of_e := ((a + bitlen t : Nat) : Int) } := by
+  intro f
+  induction f with
+  | zero =>
+    intro t a k hf hb ht ha _ hle
+    have : t = 0 := by omega
+    subst this
+    rw [whileF_stop _ _ _ _ _ _ (by simp [ec_eval_even_strategy_loop0_cond, ht])]
+    cases k; simp at ht ha; simp [ht, ha, bitlen]
+  | succ f ih =>
+    intro t a k hf hb ht ha hlt hle
+    by_cases h0 : t = 0
+    · subst h0
+      rw [whileF_stop _ _ _ _ _ _ (by simp [ec_eval_even_strategy_loop0_cond, ht])]
+      cases k; simp at ht ha; simp [ht, ha, bitlen]
+    · have hlive : EvenSt.live obs k = true := by simp [EvenSt.live, obs, hf, hb]
+      have hbl := bitlen_half t (by omega)
+      rw [whileF_step _ _ _ _ _ _ (by simp [ec_eval_even_strategy_loop0_cond, ht, hlive]; omega)]
+      have hbody : (match ec_eval_even_strategy_loop0_cond obs T tpep oracle fuel len pl k with
+          | .ok _ => ec_eval_even_strategy_loop0_body obs T tpep oracle fuel len pl k | .error f => k.fail f) =
+          { k with tmp := ((t / 2 : Nat) : Int), log2_of_e := ((a + 1 : Nat) : Int) } := by
+        simp [ec_eval_even_strategy_loop0_cond, ec_eval_even_strategy_loop0_body, EvenSt.step, EvenSt.live, obs, hf, hb, ht, ha]
+        omega
+      rw [hbody, ih (t / 2) (a + 1) { k with tmp := ((t / 2 : Nat) : Int), log2_of_e := ((a + 1 : Nat) : Int) } hf hb rfl rfl (by omega) (by omega)]
+      simp only [EvenSt.mk.injEq, true_and, and_true]
+      omega
+end Loop0
+
+
+theorem bitlen_le8 (t : Nat) (h : t < 256) : bitlen t ≤ 8 := by
+  unfold bitlen
+  by_cases h0 : t = 0
+  · simp [h0]
+  · simp only [h0, if_false]
+    have := (Nat.log2_lt h0 (k := 8)).2 (by omega)
+    omega
+
+theorem bitlen_pos (t : Nat) (h : bitlen t ≠ 0) : t ≠ 0 := by
+  intro h0; subst h0; simp [bitlen] at h
+
+/-- observer after `vla` and the copy of the kernel generator into slot 0 -/
+def obsV (v : Int) (len : Nat) : OSt :=
+  { size := v, sp := fun _ => none, kexp := len, bad := false, log := [(1, v, 0)], kers := [] }
+def obs0 (v : Int) (len : Nat) : OSt :=
+  { size := v, sp := fun k => if k = 0 then some len else none, kexp := len, bad := false, log := [(1, v, 0), (3, 0, 0)], kers := [] }
+
+theorem ev_vla (v : Int) (len : Nat) (h : 0 < v) : ev (OSt.init len) 1 [v] = obsV v len := by
+  simp [ev, OSt.init, h, obsV]
+theorem ev_copyIn (v : Int) (len : Nat) (h : 0 < v) : ev (obsV v len) 3 [0] = obs0 v len := by
+  simp [ev, obsV, obs0, OSt.inb, OSt.put, h]
+
+theorem ev_copy_s (o : OSt) (d c : Int) (hb : o.bad = false) (hd : o.inb d = true) (hc : o.inb c = true)
+    (hs : (o.sp c).isSome = true) :
+    ev o 2 [d, c] = obsDbl o d ((o.sp c).getD 0) (o.log ++ [(2, d, c)]) := by
+  cases h : o.sp c with
+  | none => simp [h] at hs
+  | some v =>
+    simp [OSt.inb] at hd hc
+    simpa using ev_copy o d c v hb hd.1 hd.2 hc.1 hc.2 h
+
+theorem finalSteps_even (P : Params) (m : St) (hodd : P.isOdd = 0) (he0 : m.err = none)
+    (he : (finalSteps P m).err = none) :
+    ∃ c kk : Nat, m.current = (c : Int) ∧ c < P.vla ∧ m.sp c = some kk ∧
+      finalSteps P m = { m with trace := m.trace ++ [.fin4 (c : Int) 0 kk] } := by
+  by_cases hidx : idxOK m.current P.vla = true
+  · have hidx' := hidx
+    simp [idxOK] at hidx'
+    obtain ⟨c, hc⟩ : ∃ c : Nat, m.current = (c : Int) := ⟨m.current.toNat, by omega⟩
+    have hidxc : idxOK (c : Int) P.vla = true := by rw [← hc]; exact hidx
+    cases hv : m.sp c with
+    | none => simp [finalSteps, he0, hodd, hc, hidxc, hv, St.fail] at he
+    | some kk =>
+      refine ⟨c, kk, hc, by omega, hv, ?_⟩
+      simp [finalSteps, he0, hodd, hc, hidxc, hv, St.emit]
+  · simp [finalSteps, he0, hodd, hidx, St.fail] at he
+
+theorem finalSteps_odd (P : Params) (m : St) (hodd : P.isOdd = 1) (he0 : m.err = none)
+    (he : (finalSteps P m).err = none) :
+    ∃ v : Nat, 1 < P.vla ∧ m.sp 0 = some v ∧
+      finalSteps P m = { m with current := 1, sp := upd (upd m.sp 1 (some (v - 1))) 0 (some (v - 2)),
+                                trace := m.trace ++ [.fin4 1 1 (v - 1), .fin2 (v - 2)] } := by
+  by_cases hidx : idxOK 1 P.vla = true
+  · have hidx' := hidx
+    simp [idxOK] at hidx'
+    cases hv : m.sp 0 with
+    | none => simp [finalSteps, he0, hodd, hidx, hv, upd, St.fail] at he
+    | some v =>
+      refine ⟨v, by omega, rfl, ?_⟩
+      simp [finalSteps, he0, hodd, hidx, hv, upd, St.emit]
+  · simp [finalSteps, he0, hodd, hidx, St.fail] at he
+
+/-- what is claimed about a complete run: no fault on either side, same final integer state, same carried
+    orders, same sequence of kernel orders -/
+structure Final (k : EvenSt OSt) (m : St) : Prop where
+  kf : k.fault = none
+  kb : k.obs.bad = false
+  me : m.err = none
+  st : k.strategy = (m.strategy : Int)
+  bl : k.BLOCK = m.block
+  cu : k.current = m.current
+  og : ∀ i : Nat, k.obs.sp (i : Int) = m.sp i
+  ke : k.obs.kers = m.trace.flatMap kerOf
+
+section Top
+variable (T : List (List Nat)) (tpep len : Nat) (oracle : Nat → Bool) (fuel : Nat) (pl : Int) (M : Nat)
+
+local macro "ST[" lg:term "," tmp:term "," eh:term "," xd:term "," od:term "," o:term "]" : term =>
+  `(({ log2_of_e := $lg, tmp := $tmp, e_half := $eh, strategy := 0, i := 0, j := 0, BLOCK := 0, current := 0, XDBLs := $xd, is_odd := $od, fault := none, obs := $o } : EvenSt OSt))
+
+theorem skel_refines (H : Hyp T tpep len M fuel) (he : (evalEven T tpep len).err = none) :
+    Final (ec_eval_even_strategy obs T tpep oracle fuel len pl (EvenSt.init (OSt.init len))) (evalEven T tpep len) := by
+  have h6 : (mkParams T tpep len).eHalf = len / 2 := rfl
+  have h7 : (mkParams T tpep len).isOdd = len % 2 := rfl
+  have h8 : (mkParams T tpep len).vla = 2 * bitlen (len / 2 % 256) := rfl
+  have hmag := H.hmag
+  have hvla : (mkParams T tpep len).vla ≠ 0 := by
+    intro h0
+    simp [evalEven, evalP, h0, St.fail] at he
+  have hb8 := bitlen_le8 (len / 2 % 256) (by omega)
+  have heh : len / 2 % 256 ≠ 0 := bitlen_pos _ (by omega)
+  unfold evalEven evalP at he ⊢
+  simp only [hvla, if_false] at he ⊢
+  unfold ec_eval_even_strategy
+  rw [step_live _ (EvenSt.init (OSt.init len)) rfl rfl]
+  dsimp only [EvenSt.init]
+  have e1 : ((len : Int) / 2) % W64 = ((len / 2 : Nat) : Int) := by rw [w64]; omega
+  rw [e1]
+  rw [step_live _ ST[0, 0, ((len / 2 : Nat) : Int), IArr.new 0, 0, OSt.init len] rfl rfl]
+  dsimp only
+  have e2 : ((len / 2 : Nat) : Int) % 256 = ((len / 2 % 256 : Nat) : Int) := by omega
+  rw [e2]
+  rw [step_live _ ST[0, ((len / 2 % 256 : Nat) : Int), ((len / 2 : Nat) : Int), IArr.new 0, 0, OSt.init len] rfl rfl]
+  dsimp only
+  rw [step_live _ ST[0 % 256, ((len / 2 % 256 : Nat) : Int), ((len / 2 : Nat) : Int), IArr.new 0, 0, OSt.init len] rfl rfl]
+  erw [loop0 T tpep len oracle fuel pl fuel (len / 2 % 256) 0 _ rfl rfl rfl rfl (by omega) (by have := H.hfuh; omega)]
+  dsimp only
+  rw [Nat.zero_add]
+  rw [step_live _ ST[((bitlen (len / 2 % 256) : Nat) : Int), 0, ((len / 2 : Nat) : Int), IArr.new 0, 0, OSt.init len] rfl rfl]
+  dsimp only
+  have e5 : ((bitlen (len / 2 % 256) : Nat) : Int) * 2 % 256 = (((mkParams T tpep len).vla : Nat) : Int) := by
+    rw [h8]; omega
+  have hv0 : (0 : Int) < (((mkParams T tpep len).vla : Nat) : Int) := by omega
+  rw [e5]
+  rw [step_live _ ST[(((mkParams T tpep len).vla : Nat) : Int), 0, ((len / 2 : Nat) : Int), IArr.new 0, 0, OSt.init len] rfl rfl]
+  dsimp only [obs_ev, EvKind.vla]
+  rw [ev_vla _ _ hv0]
+  rw [step_live _ ST[(((mkParams T tpep len).vla : Nat) : Int), 0, ((len / 2 : Nat) : Int), IArr.new 0, 0, obsV (((mkParams T tpep len).vla : Nat) : Int) len] rfl rfl]
+  dsimp only [obs_ev, EvKind.copyIn]
+  rw [ev_copyIn _ _ hv0]
+  rw [step_live _ ST[(((mkParams T tpep len).vla : Nat) : Int), 0, ((len / 2 : Nat) : Int), IArr.new 0, 0, obs0 (((mkParams T tpep len).vla : Nat) : Int) len] rfl rfl]
+  dsimp only
+  rw [step_live _ ST[(((mkParams T tpep len).vla : Nat) : Int), 0, ((len / 2 : Nat) : Int), IArr.new 0, 0, obs0 (((mkParams T tpep len).vla : Nat) : Int) len] rfl rfl]
+  dsimp only
+  rw [step_live _ ST[(((mkParams T tpep len).vla : Nat) : Int), 0, ((len / 2 : Nat) : Int), IArr.new 0, 0, obs0 (((mkParams T tpep len).vla : Nat) : Int) len] rfl rfl]
+  dsimp only
+  rw [step_live _ ST[(((mkParams T tpep len).vla : Nat) : Int), 0, ((len / 2 : Nat) : Int), IArr.new 0, 0, obs0 (((mkParams T tpep len).vla : Nat) : Int) len] rfl rfl]
+  dsimp only
+  rw [if_pos hv0]
+  rw [step_live _ ST[(((mkParams T tpep len).vla : Nat) : Int), 0, ((len / 2 : Nat) : Int), IArr.new (((mkParams T tpep len).vla : Nat) : Int), 0, obs0 (((mkParams T tpep len).vla : Nat) : Int) len] rfl rfl]
+  dsimp only
+  have e12 : (len : Int) % 2 = ((len % 2 : Nat) : Int) := by omega
+  rw [e12]
+  rw [step_live _ ST[(((mkParams T tpep len).vla : Nat) : Int), 0, ((len / 2 : Nat) : Int), IArr.new (((mkParams T tpep len).vla : Nat) : Int), ((len % 2 : Nat) : Int), obs0 (((mkParams T tpep len).vla : Nat) : Int) len] rfl rfl]
+  dsimp only
+  rw [step_live _ ST[(((mkParams T tpep len).vla : Nat) : Int), 0, ((len / 2 : Nat) : Int), IArr.new (((mkParams T tpep len).vla : Nat) : Int), ((len % 2 : Nat) : Int), obs0 (((mkParams T tpep len).vla : Nat) : Int) len] rfl rfl]
+  have R0 : Rel (mkParams T tpep len) M 0
+      ST[(((mkParams T tpep len).vla : Nat) : Int), 0, ((len / 2 : Nat) : Int), IArr.new (((mkParams T tpep len).vla : Nat) : Int), ((len % 2 : Nat) : Int), obs0 (((mkParams T tpep len).vla : Nat) : Int) len]
+      (initSt (mkParams T tpep len)) := by
+    constructor
+    · rfl
+    · rfl
+    · rfl
+    · rfl
+    · rfl
+    · rfl
+    · rfl
+    · rfl
+    · rfl
+    · rfl
+    · intro i; rfl
+    · rfl
+    · intro i
+      simp only [obs0, initSt]
+      have : ((i : Int) = 0) ↔ i = 0 := by omega
+      simp only [this]; rfl
+    · rfl
+    · intro i v h; simp [initSt] at h
+    · simp [initSt]
+    · simp [initSt]
+    · simp [initSt]
+  have hfl : (forLoop (mkParams T tpep len) ((mkParams T tpep len).eHalf - 1) 0 (initSt (mkParams T tpep len))).err = none := by
+    cases hq : (forLoop (mkParams T tpep len) ((mkParams T tpep len).eHalf - 1) 0 (initSt (mkParams T tpep len))).err with
+    | none => rfl
+    | some e =>
+      rw [finalSteps_err _ _ (by simp [hq])] at he
+      simp [hq] at he
+  have R2 := for_sim T tpep len oracle fuel pl M H ((mkParams T tpep len).eHalf - 1) fuel 0 _ _ R0 (by omega)
+    (by have := H.hfuh; omega) hfl
+  generalize hk2 : whileF _ _ _ _ fuel _ = k2 at R2 ⊢
+  generalize forLoop (mkParams T tpep len) ((mkParams T tpep len).eHalf - 1) 0 (initSt (mkParams T tpep len)) = m2 at R2 he ⊢
+  clear hk2 R0 hfl
+  have hkf := R2.kf
+  have hkb := R2.kb
+  have hos := R2.os
+  by_cases hodd : len % 2 = 0
+  · have hio : (mkParams T tpep len).isOdd = 0 := by rw [h7]; exact hodd
+    obtain ⟨c, kk, hc, hcv, hsp, hfin⟩ := finalSteps_even _ m2 hio R2.me he
+    have hcur : k2.current = (c : Int) := by rw [R2.cu, hc]
+    have hspk : k2.obs.sp (c : Int) = some kk := by rw [R2.og, hsp]
+    have hodk : k2.is_odd = 0 := by rw [R2.od, hio]; rfl
+    have hsz : (c : Int) < k2.obs.size := by rw [hos]; omega
+    rw [hfin]
+    have h0c : (0 : Int) ≤ (c : Int) := by omega
+    constructor <;>
+      simp [EvenSt.step, EvenSt.live, obs, hkf, hkb, hodk, truthy, hcur, hc, EvKind.isog4, ev_isog4_s, OSt.inb, hsz, hspk, h0c,
+        R2.me, R2.st, R2.bl, R2.og, R2.ke, kerOf]
+  · have hio : (mkParams T tpep len).isOdd = 1 := by rw [h7]; omega
+    obtain ⟨v, hv1, hsp, hfin⟩ := finalSteps_odd _ m2 hio R2.me he
+    have hspk : k2.obs.sp 0 = some v := by
+      have := R2.og 0
+      rw [hsp] at this
+      simpa using this
+    have hodk : k2.is_odd = 1 := by rw [R2.od, hio]; rfl
+    have hsz : (1 : Int) < k2.obs.size := by rw [hos]; omega
+    have hsz0 : (0 : Int) < k2.obs.size := by omega
+    have hsz1 : (1 : Int) ≤ k2.obs.size := by omega
+    rw [hfin]
+    constructor <;>
+      simp [EvenSt.step, EvenSt.live, obs, hkf, hkb, hodk, truthy, EvKind.isog4, EvKind.isog2, EvKind.eval4, EvKind.copy, EvKind.dbl,
+        ev_isog4_s, ev_isog2_s, ev_eval4_s, ev_copy_s, ev_dbl_s, OSt.inb, hsz, hsz0, hsz1, hspk, obsDbl_sp,
+        R2.me, R2.st, R2.bl, R2.og, R2.ke, kerOf]
+    intro i
+    rcases (by omega : i = 0 ∨ i = 1 ∨ 2 ≤ i) with h | h | h
+    · subst h; simp [upd, hsp]
+    · subst h; simp [upd]
+    · have a : ¬ (i : Int) < 1 := by omega
+      have b : ¬ (i : Int) = 1 := by omega
+      have c : ¬ i = 0 := by omega
+      have d : ¬ i = 1 := by omega
+      simp [upd, a, b, c, d]
+end Top
+
 end SqiProofs.SkelEvenSim
